@@ -1,2 +1,360 @@
-//! Sanitizer phase (stub)
-pub fn fold(_ctx: &vcore::Ctx, _rep: &mut vcore::Report, _prop: &str) {}
+//! Sanitizer phase: small direct-driven workloads (`san-child`) executed under
+//! Miri and AddressSanitizer as child processes (`san`, also invoked by the
+//! thorough tier of C07 / C18).
+//!
+//! * C07: direct driver with `block_size` set (raw-pointer split borrow in
+//!   `Fs::crash`), crash-continue-crash histories.
+//! * C18: ring scripts heavy in cancels and crashes with the *buffer
+//!   discipline*: an operation buffer is freed as soon as its CQE, the CQE of
+//!   the cancel that hit it, or the crash is observed, and the script keeps
+//!   draining. A later touch by the ring is a use-after-free.
+//!
+//! Verdict mapping: a memory error on an operation buffer -> violation class
+//! `buffer-uaf`; aliasing-model diagnostics elsewhere -> reported in the
+//! evidence, not a verdict; a sanitizer that cannot be run -> harness error
+//! (INCONCLUSIVE), never a violation.
+
+use crate::c18::RStats;
+use crate::diff::Stats;
+use crate::gen::{gen_history, GenCfg};
+use crate::ops::Op;
+use crate::real::{Cfg, Lat};
+use crate::ring::gen_script;
+use serde_json::{json, Value};
+use std::process::Command;
+use vcore::{Ctx, Report, Rng};
+
+/// The workload run inside the sanitizer. Prints one `SAN-CHILD-OK` line.
+pub fn child(args: &[String]) -> ! {
+    let which = args.first().map(|s| s.as_str()).unwrap_or("c18");
+    let scale: u64 = args
+        .iter()
+        .position(|a| a == "--scale")
+        .and_then(|i| args.get(i + 1))
+        .and_then(|s| s.parse().ok())
+        .unwrap_or(1);
+    let seed: u64 = std::env::var("VERIF_SEED")
+        .ok()
+        .and_then(|s| s.parse().ok())
+        .unwrap_or(0);
+    let mut ops = 0u64;
+    let mut complaints = 0u64;
+    let mut extra = String::new();
+    match which {
+        "c07" => {
+            let mut crashes = 0u64;
+            for i in 0..(10 * scale) {
+                let mut rng = Rng::new(vcore::rng::mix(seed ^ (0xC07 << 32) ^ i));
+                let gc = GenCfg {
+                    len: rng.range(8, 16) as usize,
+                    fe_w: [3, 1, 1],
+                    crashes: true,
+                    sync_heavy: true,
+                    sync_everywhere: false,
+                    max_write: 16,
+                    avoid_zones: true,
+                };
+                let cfg = Cfg {
+                    sync_prob: if i % 2 == 0 { 0.0 } else { 0.3 },
+                    block: Some(*rng.pick(&[2u64, 4])),
+                    lat: Lat::None,
+                    page_cache: false,
+                    fs_seed: rng.next_u64(),
+                };
+                let (mut h, _) = gen_history(&mut rng, &gc);
+                h.push(Op::Crash);
+                let mut st = Stats::default();
+                let o = crate::c07::run_direct(&cfg, &h, &mut st, false);
+                ops += h.len() as u64;
+                crashes += o.crashes;
+                if o.complaint.is_some() {
+                    complaints += 1;
+                }
+            }
+            extra = format!(" crashes={crashes}");
+        }
+        _ => {
+            let mut freed = 0u64;
+            let mut cqes = 0u64;
+            for i in 0..(8 * scale) {
+                let mut rng = Rng::new(vcore::rng::mix(seed ^ (0xC18 << 32) ^ i));
+                let mut s = gen_script(&mut rng, 26, true);
+                // make sure cancels and a crash are present
+                if i % 2 == 0 {
+                    s.acts.push(crate::ring::RAct::Crash);
+                    s.acts.push(crate::ring::RAct::Advance { ns: 10_000_000 });
+                    for r in 0..s.depths.len() {
+                        s.acts.push(crate::ring::RAct::Drain { ring: r, max: None });
+                    }
+                }
+                let mut st = RStats::default();
+                let c = crate::c18::run_direct(&s, &mut st, true);
+                ops += s.acts.len() as u64;
+                freed += st.get("buffers_freed_early");
+                cqes += st.get("cqes");
+                if c.is_some() {
+                    complaints += 1;
+                }
+            }
+            extra = format!(" cqes={cqes} buffers_freed_early={freed}");
+        }
+    }
+    println!("SAN-CHILD-OK prop={which} ops={ops} oracle_complaints={complaints}{extra}");
+    std::process::exit(0)
+}
+
+#[derive(Debug, Clone)]
+pub struct ToolRun {
+    pub tool: String,
+    pub prop: String,
+    pub ran: bool,
+    pub clean: bool,
+    pub ops: u64,
+    pub reports: u64,
+    pub buffer_reports: u64,
+    pub aliasing_reports: u64,
+    pub wall_s: f64,
+    pub detail: String,
+    pub summary_line: String,
+}
+
+impl ToolRun {
+    fn to_json(&self) -> Value {
+        json!({
+            "tool": self.tool, "workload": self.prop, "ran": self.ran, "clean": self.clean,
+            "ops_executed": self.ops, "reports": self.reports,
+            "reports_on_operation_buffers": self.buffer_reports,
+            "aliasing_model_reports": self.aliasing_reports,
+            "wall_s": (self.wall_s * 10.0).round() / 10.0,
+            "child_summary": self.summary_line,
+            "detail": self.detail,
+        })
+    }
+}
+
+fn harness_dir() -> std::path::PathBuf {
+    // the binary is built from /verif/harness; allow an override for scratch copies
+    std::env::var("FSMODEL_HARNESS_DIR")
+        .map(std::path::PathBuf::from)
+        .unwrap_or_else(|_| std::path::PathBuf::from(env!("CARGO_MANIFEST_DIR")).join(".."))
+}
+
+fn classify(tool: &str, prop: &str, out: std::io::Result<std::process::Output>, wall: f64) -> ToolRun {
+    let mut r = ToolRun {
+        tool: tool.into(),
+        prop: prop.into(),
+        ran: false,
+        clean: false,
+        ops: 0,
+        reports: 0,
+        buffer_reports: 0,
+        aliasing_reports: 0,
+        wall_s: wall,
+        detail: String::new(),
+        summary_line: String::new(),
+    };
+    let out = match out {
+        Ok(o) => o,
+        Err(e) => {
+            r.detail = format!("cannot spawn: {e}");
+            return r;
+        }
+    };
+    let stdout = String::from_utf8_lossy(&out.stdout).to_string();
+    let stderr = String::from_utf8_lossy(&out.stderr).to_string();
+    if let Some(l) = stdout.lines().find(|l| l.starts_with("SAN-CHILD-OK")) {
+        r.summary_line = l.to_string();
+        for tok in l.split_whitespace() {
+            if let Some(v) = tok.strip_prefix("ops=") {
+                r.ops = v.parse().unwrap_or(0);
+            }
+        }
+    }
+    let ub = stderr.matches("Undefined Behavior").count() as u64;
+    let asan = stderr.matches("ERROR: AddressSanitizer").count() as u64;
+    r.reports = ub + asan;
+    if r.reports > 0 {
+        r.ran = true;
+        let low = stderr.to_lowercase();
+        let memory = low.contains("has been freed")
+            || low.contains("dangling")
+            || low.contains("use-after-free")
+            || low.contains("heap-buffer-overflow")
+            || low.contains("out-of-bounds");
+        let aliasing = low.contains("stacked borrows")
+            || low.contains("tree borrows")
+            || low.contains("retag")
+            || low.contains("not granting access");
+        let on_ring_path = low.contains("exec_read")
+            || low.contains("exec_write")
+            || low.contains("read_file")
+            || low.contains("turmoil_io_uring")
+            || low.contains("copy_from_slice")
+            || low.contains("from_raw_parts");
+        if memory && (on_ring_path || prop == "c18") {
+            r.buffer_reports = r.reports;
+        } else if aliasing {
+            r.aliasing_reports = r.reports;
+        }
+        // keep the head of the first report
+        let start = stderr
+            .find("Undefined Behavior")
+            .or_else(|| stderr.find("ERROR: AddressSanitizer"))
+            .unwrap_or(0);
+        r.detail = stderr[start.saturating_sub(7)..].chars().take(1500).collect();
+        return r;
+    }
+    if out.status.success() && !r.summary_line.is_empty() {
+        r.ran = true;
+        r.clean = true;
+        return r;
+    }
+    r.detail = format!(
+        "exit {:?}; stderr tail: {}",
+        out.status.code(),
+        stderr.chars().rev().take(600).collect::<String>().chars().rev().collect::<String>()
+    );
+    r
+}
+
+pub fn run_miri(prop: &str) -> ToolRun {
+    let t0 = std::time::Instant::now();
+    let dir = harness_dir();
+    let out = Command::new("cargo")
+        .current_dir(&dir)
+        .args([
+            "+nightly",
+            "miri",
+            "run",
+            "--offline",
+            "-q",
+            "-p",
+            "fsmodel",
+            "--target-dir",
+        ])
+        .arg(dir.join("target-miri"))
+        .args(["--", "san-child", prop])
+        .env("MIRIFLAGS", "-Zmiri-disable-isolation")
+        .env_remove("RUSTFLAGS")
+        .output();
+    classify("miri", prop, out, t0.elapsed().as_secs_f64())
+}
+
+pub fn run_asan(prop: &str, scale: u64) -> ToolRun {
+    let t0 = std::time::Instant::now();
+    let dir = harness_dir();
+    let out = Command::new("cargo")
+        .current_dir(&dir)
+        .args([
+            "+nightly",
+            "run",
+            "--offline",
+            "-q",
+            "--release",
+            "-p",
+            "fsmodel",
+            "--target",
+            "x86_64-unknown-linux-gnu",
+            "--target-dir",
+        ])
+        .arg(dir.join("target-asan"))
+        .args(["--", "san-child", prop, "--scale"])
+        .arg(scale.to_string())
+        .env(
+            "RUSTFLAGS",
+            "-Zsanitizer=address -Cforce-frame-pointers=yes --cfg tokio_unstable --cfg turmoil_verif",
+        )
+        .env("ASAN_OPTIONS", "detect_leaks=0:abort_on_error=0")
+        .output();
+    classify("asan", prop, out, t0.elapsed().as_secs_f64())
+}
+
+/// Run the sanitizer phase of `prop` and fold it into the report.
+pub fn fold(ctx: &Ctx, rep: &mut Report, prop: &str) {
+    let which = if prop == "C07" { "c07" } else { "c18" };
+    let mut runs = vec![run_miri(which)];
+    if which == "c18" {
+        runs.push(run_asan(which, 400));
+    }
+    let mut ops_miri = 0;
+    let mut ops_asan = 0;
+    for r in &runs {
+        if r.tool == "miri" {
+            ops_miri += r.ops;
+        } else {
+            ops_asan += r.ops;
+        }
+        if !r.ran {
+            rep.harness_errors.push(format!(
+                "sanitizer {} could not run the {} workload: {}",
+                r.tool, r.prop, r.detail
+            ));
+        } else if r.buffer_reports > 0 {
+            let v = vcore::Violation {
+                class: "buffer-uaf".into(),
+                signature: format!("buffer-uaf|{}|{}", r.tool, which),
+                what: format!(
+                    "{} reported a memory error on an operation buffer in the {} workload: {}",
+                    r.tool,
+                    which,
+                    r.detail.lines().take(3).collect::<Vec<_>>().join(" / ")
+                ),
+                witness: json!({"kind":"sanitizer","tool":r.tool,"workload":which,
+                    "cmd": format!("fsmodel san {prop}"), "report": r.detail}),
+            };
+            rep.violation_count += 1;
+            rep.violations.insert(v.signature.clone(), v);
+        } else if !r.clean && r.aliasing_reports == 0 {
+            // a report that is neither on a buffer nor an aliasing diagnostic:
+            // not attributable here; the phase did not complete
+            rep.harness_errors.push(format!(
+                "sanitizer {} stopped on an unclassified report: {}",
+                r.tool,
+                r.detail.lines().take(2).collect::<Vec<_>>().join(" / ")
+            ));
+        }
+    }
+    *rep.counters.entry("san_ops_under_miri".into()).or_default() += ops_miri;
+    *rep.counters.entry("san_ops_under_asan".into()).or_default() += ops_asan;
+    *rep.counters.entry("san_reports".into()).or_default() +=
+        runs.iter().map(|r| r.reports).sum::<u64>();
+    rep.extra.insert(
+        "sanitizers".into(),
+        json!({
+            "runs": runs.iter().map(|r| r.to_json()).collect::<Vec<_>>(),
+            "ops_under_miri": ops_miri,
+            "ops_under_asan": ops_asan,
+            "reports_on_operation_buffers": runs.iter().map(|r| r.buffer_reports).sum::<u64>(),
+            "aliasing_model_reports_not_verdicts": runs.iter().map(|r| r.aliasing_reports).sum::<u64>(),
+        }),
+    );
+    let _ = ctx;
+}
+
+/// `fsmodel san <C07|C18>`: the sanitizer phase alone.
+pub fn main(ctx: &Ctx) -> ! {
+    let prop = ctx.rest.first().cloned().unwrap_or_else(|| "C18".into());
+    let mut rep = Report::default();
+    fold(ctx, &mut rep, &prop);
+    println!(
+        "{}",
+        serde_json::to_string_pretty(&rep.extra.get("sanitizers").cloned().unwrap_or(json!({})))
+            .unwrap()
+    );
+    if !rep.violations.is_empty() {
+        for v in rep.violations.values() {
+            println!("# {}: {}", v.class, v.what);
+        }
+        println!("VIOLATION property={prop} (sanitizer phase)");
+        std::process::exit(1);
+    }
+    if !rep.harness_errors.is_empty() {
+        for e in &rep.harness_errors {
+            println!("# {e}");
+        }
+        println!("INCONCLUSIVE property={prop} sanitizer phase could not complete");
+        std::process::exit(2);
+    }
+    println!("OK property={prop} sanitizer phase clean");
+    std::process::exit(0)
+}
